@@ -209,12 +209,20 @@ def build_case_font(case):
     glyphs = OrderedDict([(".notdef", ([[(50, 0), (50, 700), (450, 700), (450, 0)]], None))])
     if not case.get("no_space"):
         glyphs["space"] = ([], None)
+    def colour_glyph(n):
+        # "own_outline": the base glyph carries an outline and is its own (first) layer, as in many hand-made COLR fonts
+        return OUTLINES["sq"] if case.get("own_outline") and n == "c0" else ([], None)
+
+    pending = list(case["paints"])
     for n, g in OUTLINES.items():
+        if case.get("interleave") and pending:
+            # colour glyphs scattered among the outline glyphs: their glyph ids are not one consecutive run
+            k = pending.pop(0)
+            glyphs[k] = colour_glyph(k)
         glyphs[n] = g
     glyphs["comp"] = ([], [("tri", tuple(case["comp"])), ("sq", (1, 0, 0, 1, 300, -150))])
-    for n in case["paints"]:
-        # "own_outline": the base glyph carries an outline and is its own (first) layer, as in many hand-made COLR fonts
-        glyphs[n] = OUTLINES["sq"] if case.get("own_outline") and n == "c0" else ([], None)
+    for n in pending:
+        glyphs[n] = colour_glyph(n)
     cmap = {} if case.get("no_space") else {0x20: "space"}
     for i, n in enumerate(case["paints"]):
         cmap[0xE000 + i] = n
